@@ -9,6 +9,7 @@ event is not overdue by a whole tick (in particular right after `Track.start`, a
 `nudge` that does not skip events).
 -/
 import IsobarV.Sched.Onset
+import IsobarV.Sched.Solo
 
 namespace IsobarV.C01
 open IsobarV.Sched
@@ -98,6 +99,43 @@ theorem local_time_advances (W : World) (q : Nat) (t : Track) : (clockTick W q t
   split
   · have := pullLoop_cur W q (t.fuel q) t .stop
     simp [this]
+  · rfl
+
+/-- The clock fields of a track record. -/
+def clockOf (t : Track) : Nat × Int × Nat × Nat × Nat := (t.cur, t.nxt, t.pos, t.sid, t.count)
+
+theorem performSolo_clock (q : Nat) (t : Track) (a : Bool) (k : EvKind) :
+    clockOf (performSolo q t a k).t = clockOf t := by
+  unfold performSolo
+  split
+  · rfl
+  · cases k <;> simp only [] <;> (try split) <;> rfl
+
+/-- **The closed form is about the track as it runs in the timeline.**  In a tick that ends normally
+    the per-track tick function (`soloTick`, by `C07.non_interference` the way a track evolves inside a
+    timeline tick) moves the clock fields of a playing track exactly as `clockTick` does — whatever the
+    event was (note, chord, control, rest, muted or inactive). -/
+theorem solo_clock (W : World) (q : Nat) (t : Track) (hs : t.started = true) (hok : (soloTick W q t).out = .ok) :
+    clockOf (soloTick W q t).t = clockOf (clockTick W q t) := by
+  unfold soloTick clockTick at *
+  simp only [hs] at hok ⊢
+  simp only [Bool.true_eq_false, if_false] at hok ⊢
+  split
+  · rename_i hdue
+    simp only [hdue, if_true] at hok
+    generalize Track.pullLoop W q (t.fuel q) t .stop = p at hok
+    unfold soloAfterPull at hok ⊢
+    split
+    · simp_all
+    · simp_all
+    · rfl
+    · rename_i d a k hr
+      simp only [hr] at hok
+      split
+      · rename_i hraise; simp [hraise] at hok
+      · have := performSolo_clock q p.t a k
+        simp only [clockOf, Prod.mk.injEq] at this ⊢
+        simp [endSolo, this]
   · rfl
 
 /-! Non-vacuity and the excluded region. -/
